@@ -291,7 +291,7 @@ def t2_lexer_cases(results: List[Dict[str, Any]], metas: List[Dict[str, Any]], s
 def t2_exprs(ck: Check, jobs: List[Dict[str, Any]], metas: List[Dict[str, Any]]) -> None:
     rng = random.Random(ck.rng.getrandbits(64))
     for i in range(ck.n(400, 5000)):
-        inside = i % 5 == 0          # the separate stream inside the div-zero class
+        inside = i % 5 == 0          # zero divisors (regression stream of the fixed div-zero finding)
         e = g.gen_root_cexpr(rng, rng.choice([1, 2, 3, 4]), 0.45 if inside else 0.0)
         try:
             txt = e.text()
